@@ -17,6 +17,7 @@ INVARIANT NeverUnverified
 INVARIANT OfflineWhenCached
 INVARIANT ServedWhenCached
 INVARIANT RetryBound
+INVARIANT ErrorClassOK
 INVARIANT NoCrossTalk
 INVARIANT ProbeDone
 PROPERTY LaterLoadSucceeds
